@@ -481,8 +481,13 @@ impl<'a> Unquote<'a> {
             if str_ref.find('\\').is_some() {
                 Cow::from(self.to_string())
             } else {
-                // String is quoted but has no escapes.
-                Cow::from(&str_ref[1..str_ref.len() - 1])
+                // String is quoted but has no escapes: the value ends at the
+                // closing quote, or at the end if the quote is missing.
+                let unquoted = &str_ref[1..];
+                match unquoted.find('"') {
+                    Some(end) => Cow::from(&unquoted[..end]),
+                    None => Cow::from(unquoted),
+                }
             }
         } else {
             Cow::from(str_ref)
